@@ -13,7 +13,7 @@ import (
 func init() {
 	register("C13", PropCheck{
 		Title:      "A storage error on Postgres never wedges the store or loses acknowledged writes",
-		Explain:    "Transaction typestate, decided on every path including the error paths no test takes: (R1) pgDb.tx is stored only nil or the result of BeginTx, and every Commit/Rollback on the stored handle is followed by storing nil on every path (ended exactly once); (R2) in every operation that opens the implicit transaction (Put, Get), every path from the opener's success edge (the opener itself, or an unexported helper that calls it, reports success only behind its success edge and returns nothing but success afterwards) to a return passes a closer (a method that commits or rolls back the stored handle; a deferred closer counts from its registration), and the error of every committing closer flows into the operation's error result; (R3) for a local BeginTx result (Dump, ensureTable) every path from the success edge to a return passes Commit or Rollback (deferred counts) and the failure edge does not touch the handle; (R4) exported methods that do not open a transaction (Abort, Stop, Close) dereference the stored handle only behind a non-nil test; (R5) explicit mode: multi is set only after the opener succeeded, and every commit reached from a single operation (Put, Get) lies behind the multi==false edge, tested in the closer or at its call site; (R7) an operation opens at most one transaction: after a rollback (Abort, or Rollback on the stored handle) no opener is reachable in the same call - a retry on a fresh transaction inside Start..Stop discards the acknowledged writes before it and reports success (added after seeded change C13-G); (R8) a back end that declares one of Start, Stop, Abort itself declares all three itself (checked on the method sets): none silently falls back to DbBase's do-nothing version (added after C13-H, where the public Abort was renamed away). R3 also requires that a local transaction is ended at most once: no closer (explicit, or deferred and therefore run at the return) can follow another on one path, except a Rollback reached only on the failure edge of a Commit (added after seeded change C13-J). Closers are followed through wrappers that hoist the commit sequence, and nil tests of the stored handle through one call level. (R9) every nil store to pgDb.tx is preceded on every path of its function by a Commit or Rollback on the stored handle (added after seeded change C13-L).",
+		Explain:    "Transaction typestate, decided on every path including the error paths no test takes: (R1) pgDb.tx is stored only nil or the result of BeginTx, and every Commit/Rollback on the stored handle is followed by storing nil on every path (ended exactly once); (R2) in every operation that opens the implicit transaction (Put, Get), every path from the opener's success edge (the opener itself, or an unexported helper that calls it, reports success only behind its success edge and returns nothing but success afterwards) to a return passes a closer (a method that commits or rolls back the stored handle; a deferred closer counts from its registration), and the error of every committing closer flows into the operation's error result; (R3) for a local BeginTx result (Dump, ensureTable) every path from the success edge to a return passes Commit or Rollback (deferred counts) and the failure edge does not touch the handle; (R4) exported methods that do not open a transaction (Abort, Stop, Close) dereference the stored handle only behind a non-nil test; (R5) explicit mode: multi is set only after the opener succeeded, and every commit reached from a single operation (Put, Get) lies behind the multi==false edge, tested in the closer or at its call site; (R7) an operation opens at most one transaction: after a rollback (Abort, or Rollback on the stored handle) no opener is reachable in the same call - a retry on a fresh transaction inside Start..Stop discards the acknowledged writes before it and reports success (added after seeded change C13-G); (R8) a back end that declares one of Start, Stop, Abort itself declares all three itself (checked on the method sets): none silently falls back to DbBase's do-nothing version (added after C13-H, where the public Abort was renamed away). R3 also requires that a local transaction is ended at most once: no closer (explicit, or deferred and therefore run at the return) can follow another on one path, except a Rollback reached only on the failure edge of a Commit (added after seeded change C13-J). Closers are followed through wrappers that hoist the commit sequence, and nil tests of the stored handle through one call level. (R9) every nil store to pgDb.tx is preceded on every path of its function by a Commit or Rollback on the stored handle (added after seeded change C13-L). (R10) Stop reports success only after a Commit: every success return of the back end's Stop passes Tx.Commit, directly or in a helper all of whose success returns do (added after seeded change C13-M: 'no transaction' became success, hiding the rollback of acknowledged writes). (R11) no function reachable from Put/Get inside the package stores the transaction mode flag (added after seeded change C13-N, where the internal rollback left multi mode).",
 		NotDecided: "that later operations return exactly the acknowledged values (history-level); behaviour of the driver itself after a failed statement; clearing of multi when a transaction ends (TestPostgresTxStartStop pins that it stays set).",
 		Run:        runC13,
 	})
